@@ -430,8 +430,6 @@ PhaseMonotone ==
 \* liveness (FairSpec): every issued call returns
 Termination == \A c \in AllCallers : (call[c].pc # "idle") ~> (call[c].pc = "idle")
 
-Symm == Permutations(Callers)
-
 \* state constraint for the bounded safety run
 Bound == nbuilds <= MaxBuilds
 =============================================================================
